@@ -99,6 +99,16 @@ impl Parser {
             None => return Err(ProtocolError::Overflow),
         };
 
+        // check for max allowed size as soon as the announced length is known, so that an
+        // over-sized payload is never waited for (and buffered) before being refused
+        if length > max_size {
+            // drop the frame if all of it has been received already
+            if src.len() >= frame_len {
+                src.advance(frame_len);
+            }
+            return Err(ProtocolError::Overflow);
+        }
+
         // not enough data
         if src.len() < frame_len {
             let min_length = min(length, max_size);
@@ -115,13 +125,6 @@ impl Parser {
 
         // remove prefix
         src.advance(idx);
-
-        // check for max allowed size
-        if length > max_size {
-            // drop the payload
-            src.advance(length);
-            return Err(ProtocolError::Overflow);
-        }
 
         // no need for body
         if length == 0 {
